@@ -22,9 +22,10 @@ import zlib
 
 from .. import core
 from ..core import cstr, cbool
-from ..runner import Entry, differential
+from ..runner import Entry, differential, run_entry
 from ..translate import c15_skeleton as sk
 from . import c15_drivers as drv
+from . import c15_translate as tr
 
 PRE = ("From EsVerif.Common Require Import Base Bytes.\nFrom EsVerif.C15 Require Import Model Spec Exec.\n"
        "From Coq Require Import Uint63.\n")
@@ -36,6 +37,7 @@ STATIC_OK = {}          # driver name -> bool, filled by static_step
 EXEMPT_HITS = {}        # "driver.arg" -> number of calls in which the exempt (documented in-place) argument did change
 ERRORS = {}             # driver -> number of calls that raised (an exception is not a mutation)
 TIMES = {}              # phase -> seconds (reported in the evidence)
+SKIP = set()            # drivers whose target does not exist in this tree (d["needs"])
 DYN_CHANGED = {}        # driver -> first case in which a non-exempt argument changed
 
 
@@ -261,11 +263,15 @@ def variants(d, ctx, full):
     allv = [(dt, o, lay, nd) for dt in d["dt"] for o in orders for lay in ("contig", "strided") for nd in d["nd"]]
     if full or len(allv) <= d["n"]:
         return allv
-    # quick tier: always the most demanding corner per (dtype, ndim), then a seeded sample
+    # quick tier: per ndim ALWAYS the corner in which NO conversion is needed (first dtype, native, contiguous: the only place
+    # where a forgotten copy -- np.asarray / copy=None / astype(copy=False) -- hands the caller's own buffer to later in-place
+    # code) and the most demanding corner (swapped + strided); then one corner per other dtype; then a seeded sample
     r = ctx.rng
     must = []
     for nd in d["nd"]:
+        must.append((d["dt"][0], "native", "contig", nd))
         must.append((d["dt"][0], "swapped", "strided", nd))
+    must.append((d["dt"][0], "native", "strided", d["nd"][0]))
     if len(d["dt"]) > 1:
         must.append((d["dt"][1], "swapped", "contig", d["nd"][0]))
         must.append((d["dt"][-1], "native", "strided", d["nd"][0]))
@@ -284,7 +290,7 @@ class Dyn(Entry):
         self.compiled = {}
 
     def drivers(self):
-        return [d for d in drv.DRIVERS if d["fam"] == self.fam]
+        return [d for d in drv.DRIVERS if d["fam"] == self.fam and d["name"] not in SKIP]
 
     def cases(self, ctx, round=0):
         cs = []
@@ -414,6 +420,8 @@ def exemptions():
 def extract_all(ctx):
     res = {}
     for d in drv.DRIVERS:
+        if d["name"] in SKIP:
+            continue
         arr, _ = params_of(d)
         ps = [p for p in arr if p not in d["exempt"]]
         try:
@@ -433,7 +441,7 @@ def static_step(ctx, only=None):
     t0 = time.time()
     names, lemmas = [], []
     for d in drv.DRIVERS:
-        if only and d["name"] not in only:
+        if (only and d["name"] not in only) or d["name"] in SKIP:
             continue
         r = ex[d["name"]]
         if not r["checked"]:
@@ -492,6 +500,57 @@ def static_step(ctx, only=None):
     return ex, failed, why
 
 
+def inventory_step(ctx):
+    """the driver list against the sources of the scratch build (c15_translate, fail closed)"""
+    inv = tr.inventory(ctx.impl)
+    for d in drv.DRIVERS:
+        if d.get("needs") and d["needs"] not in inv:
+            SKIP.add(d["name"])
+            ctx.notes.append("driver %s skipped: %s does not exist in this tree" % (d["name"], d["needs"]))
+    problems, stats = tr.check(ctx.impl, drv.DRIVERS)
+    for k, v in stats.items():
+        ctx.count("inventory:" + k, v)
+    ctx.obligation("inventory: every public callable of the anchored python modules is driven or listed out of scope, "
+                   "and no driven callable changed its parameter list", not problems, "; ".join(problems[:6]))
+    if problems:
+        ctx.violation("the driver list of C15 no longer matches the sources: " + problems[0],
+                      {"kind": "inventory", "problems": problems,
+                       "no_longer_checks": "coverage of the property's quantifier (every public array-taking function, every option combination)"},
+                      found_input=False)
+    cprob = tr.ctable_problems(ctx.impl, sk.C_TABLE)
+    ctx.obligation("C entry-point table names every public method of the wrapped C++ classes", not cprob, "; ".join(cprob[:6]))
+    if cprob:
+        ctx.violation("the C entry-point table of the C15 extractor no longer matches the wrapped sources: " + cprob[0],
+                      {"kind": "c-table", "problems": cprob, "no_longer_checks": "summaries of C entry points used by the skeletons"},
+                      found_input=False)
+
+
+def search_failed(ctx, names):
+    for ent in ENTRIES:
+        ds = [n for n in names if BY_NAME[n]["fam"] == ent.fam]
+        if not ds:
+            continue
+        t0 = time.time()
+        cases = []
+        for n in ds:
+            d = BY_NAME[n]
+            for (dt, o, lay, nd) in variants(d, ctx, True):
+                for vs_ in ((5,) if d["slow"] else (5, 6)):
+                    cases.append({"driver": n, "dt": dt, "order": o, "layout": lay, "nd": nd, "vseed": vs_,
+                                  "family": "%s/%s" % (ent.fam, d["func"]), "entry": ent.name})
+        res = run_entry(ctx, PRE, ent, cases, "search_" + ent.name)
+        ctx.count("search_cases:" + ent.name, len(res))
+        seen = set()
+        for c, o, v in sorted(res, key=lambda t: len(str(t[0]))):
+            ctx.case([ent.name, c], ent.nontrivial(c, o), ent.family(c))
+            if v >= 2 and c["driver"] not in seen:
+                seen.add(c["driver"])
+                ctx.violation("%s: %s" % (ent.name, core.VERDICT_TXT[v]),
+                              {"kind": "failing-input", "entry": ent.name, "case": c, "impl_output": o, "verdict": v, "model_output": None,
+                               "class": None, "found_by": "search after failed static obligation frame_ok %s" % c["driver"]}, found_input=True)
+        TIMES["search:" + ent.name] = time.time() - t0
+
+
 TRUSTED = [
     "Coq 8.16.1 kernel (coqc, vm_compute; no native_compute); all C15 theorems are closed under the global context (no axioms)",
     "skeleton extractor harness/translate/c15_skeleton.py (python ast -> IR, hand tables for numpy/builtins/methods): trusted to "
@@ -514,6 +573,7 @@ def run(ctx, replay=None):
     ctx.trusted = TRUSTED + ["EXEMPT (documented in-place, no obligation): " + x for x in exemptions()] + ["LIMITATION: " + x for x in LIMITATIONS]
     os.environ["C15_WORK"] = ctx.work
     core.proof_step(ctx, "C15", core.ALLOW_DISCRETE)
+    inventory_step(ctx)
     if replay is not None and replay.get("kind") == "static-obligation":
         ex, failed, why = static_step(ctx, only={replay["driver"]})
         for n in failed:
@@ -526,13 +586,17 @@ def run(ctx, replay=None):
         ctx.count("exempt_argument_changed:" + k, v)
     for k, v in sorted(ERRORS.items()):
         ctx.count("calls_raised:" + k, v)
-    for k, v in sorted(TIMES.items()):
-        ctx.count("wall_s:" + k, round(v, 1))
     # cross-check static <-> dynamic.  The runner reports ONE failing input per entry and class; every driver in
     # which the dynamic run saw a non-exempt argument change (DYN_CHANGED, recorded by impl) has a failing input
     dyn_fail = set(DYN_CHANGED)
     if dyn_fail:
         ctx.notes.append("drivers with a dynamically observed mutation of a non-exempt argument: " + ", ".join(sorted(dyn_fail)))
+    # the search of DESIGN section 5 for obligations that failed without a dynamic witness so far: the full argument matrix
+    # with further value seeds (the runner's own search is triggered by model/implementation disagreement, which a failed
+    # obligation does not produce: the model then predicts nothing)
+    if replay is None:
+        search_failed(ctx, [n for n in failed if n not in dyn_fail])
+        dyn_fail = set(DYN_CHANGED)
     for n in failed:
         d = BY_NAME[n]
         if n in dyn_fail:
@@ -543,6 +607,8 @@ def run(ctx, replay=None):
                           {"kind": "static-obligation", "driver": n, "func": d["func"], "valuation": d["valuation"], "why": why.get(n),
                            "driver_source": d["src"], "no_longer_checks": "generated lemma frame_ok <skeleton of %s> = true" % n},
                           found_input=False)
+    for k, v in sorted(TIMES.items()):
+        ctx.count("wall_s:" + k, round(v, 1))
     for n in dyn_fail:
         if STATIC_OK.get(n):
             ctx.notes.append("EXTRACTOR DEFECT: %s mutates an argument although its skeleton obligation was discharged" % n)
